@@ -1,0 +1,82 @@
+// Copyright 2026 The Jujutsu Authors
+//
+// Licensed under the Apache License, Version 2.0 (the "License");
+// you may not use this file except in compliance with the License.
+// You may obtain a copy of the License at
+//
+// https://www.apache.org/licenses/LICENSE-2.0
+//
+// Unless required by applicable law or agreed to in writing, software
+// distributed under the License is distributed on an "AS IS" BASIS,
+// WITHOUT WARRANTIES OR CONDITIONS OF ANY KIND, either express or implied.
+// See the License for the specific language governing permissions and
+// limitations under the License.
+
+//! Scheduling points for external model checkers.
+//!
+//! Only compiled with the `jj_vcs_jj_verif` feature. Every function is a no-op
+//! unless a handler has been installed with [`set_handler()`].
+
+use std::path::Path;
+use std::path::PathBuf;
+use std::sync::Arc;
+use std::sync::RwLock;
+
+/// Receiver of the scheduling points.
+pub trait Handler: Send + Sync {
+    /// Called right before the calling thread performs the step `kind` on the
+    /// shared on-disk state (`detail` names the file or id concerned).
+    fn point(&self, kind: &str, detail: &str);
+
+    /// May redirect the lock file (to model a file system without shared
+    /// lock state.)
+    fn lock_path(&self, path: PathBuf) -> PathBuf {
+        path
+    }
+
+    /// Called before the real lock on `path` is taken. May block.
+    fn lock_acquire(&self, _path: &Path) {}
+
+    /// Called after the real lock on `path` has been released.
+    fn lock_released(&self, _path: &Path) {}
+}
+
+static HANDLER: RwLock<Option<Arc<dyn Handler>>> = RwLock::new(None);
+
+fn handler() -> Option<Arc<dyn Handler>> {
+    HANDLER.read().unwrap().clone()
+}
+
+/// Installs (or removes) the process-wide handler.
+pub fn set_handler(handler: Option<Arc<dyn Handler>>) {
+    *HANDLER.write().unwrap() = handler;
+}
+
+/// Announces a step on shared on-disk state.
+pub fn point(kind: &str, detail: &str) {
+    if let Some(handler) = handler() {
+        handler.point(kind, detail);
+    }
+}
+
+/// See [`Handler::lock_path()`].
+pub fn lock_path(path: PathBuf) -> PathBuf {
+    match handler() {
+        Some(handler) => handler.lock_path(path),
+        None => path,
+    }
+}
+
+/// See [`Handler::lock_acquire()`].
+pub fn lock_acquire(path: &Path) {
+    if let Some(handler) = handler() {
+        handler.lock_acquire(path);
+    }
+}
+
+/// See [`Handler::lock_released()`].
+pub fn lock_released(path: &Path) {
+    if let Some(handler) = handler() {
+        handler.lock_released(path);
+    }
+}
